@@ -62,7 +62,7 @@ impl RecSched {
         }
     }
 
-    fn strategy_choice(&mut self, runnable: &[&Task], current: Option<TaskId>, yielding: bool, choice_idx: u32) -> usize {
+    fn strategy_choice(&mut self, runnable: &[&Task], current: Option<TaskId>, yielding: bool, choice_idx: u32, just_unlocked: bool) -> usize {
         let cur: Option<usize> = current.map(usize::from);
         let ids: Vec<usize> = runnable.iter().map(|t| usize::from(t.id())).collect();
         if ids.len() == 1 {
@@ -101,6 +101,9 @@ impl RecSched {
             }
             SchedKind::Stall { per_mille, max_len } => {
                 self.stalled.retain(|(_, until)| *until > choice_idx);
+                // Right after a critical section the chance of a long preemption is 15 %: the
+                // classic window of a check made under a lock and acted upon outside of it.
+                let per_mille = if just_unlocked { per_mille.max(150) } else { per_mille };
                 if let Some(c) = cur {
                     if ids.contains(&c) && !self.stalled.iter().any(|(t, _)| *t == c) && self.rng.below(1000) < per_mille as u64 {
                         let len = 1 + self.rng.below(max_len.max(1) as u64) as u32;
@@ -131,6 +134,8 @@ impl RecSched {
     pub fn next_task(&mut self, runnable: &[&Task], current: Option<TaskId>, is_yielding: bool) -> Option<TaskId> {
         let idx = self.report.decisions.len();
         let choice_idx = self.report.choice_points;
+        // always consumed, whatever the strategy, so that it describes the last slice only
+        let just_unlocked = shuttle_engine::nxv_hint::take_just_unlocked();
 
         let is_runnable = |id: usize| runnable.iter().any(|t| usize::from(t.id()) == id);
         let cur: Option<usize> = current.map(usize::from);
@@ -167,7 +172,7 @@ impl RecSched {
                 },
             }
         } else {
-            self.strategy_choice(runnable, current, is_yielding, choice_idx)
+            self.strategy_choice(runnable, current, is_yielding, choice_idx, just_unlocked)
         };
 
         let rep = &mut self.report;
